@@ -78,3 +78,11 @@ pub broadcast proof fn lemma_range_count_closed_form(start: int, end: int, step:
     if step > 0 { lemma_range_count_pos(start, end, step); } else { lemma_range_count_neg(start, end, step); }
 }
 } // verus!
+verus! {
+// repeat(x)[lo:hi]: a bound counted from the (infinite) end is moved one further so that "no upper bound" can be written -1
+pub open spec fn rep_bound(x: Option<isize>, dflt: int) -> int { match x { Some(v) => if v < 0 { v - 1 } else { v as int }, None => dflt } }
+// stands for the unsizing coercion `Rc::new(s) as Rc<dyn Stream>`
+#[verifier::external_body]
+pub fn stream_rc<S>(s: S) -> (r: Rc<StreamBox>) { unimplemented!() }
+pub open spec fn rep_ok(lo: Option<isize>, hi: Option<isize>) -> bool { lo != Some(isize::MIN) && hi != Some(isize::MIN) }
+} // verus!
